@@ -119,6 +119,8 @@ def replay(ctx, engine, fl, path):
         return replay_c12(ctx, path)
     if engine == "toolsim":
         return replay_c20(ctx, path)
+    if engine == "ardsim":
+        return replay_c19(ctx, path)
     print("unknown engine in replay file: %s" % engine)
     return 2
 
@@ -129,6 +131,11 @@ def prebuild(ctx):
         print("built", fl)
     props.build_flavour(ctx, "tsanhook_clang")
     print("built tsanhook_clang")
+    build_toolsim(ctx); print("built toolsim")
+    build_ardsim(ctx); print("built ardsim")
+    for c in QUICK_CFGS:
+        build_cfg(ctx, c)
+    print("built %d build configurations" % len(QUICK_CFGS))
 
 
 # ----------------------------------------------------------------------------- C12 cfgsim
@@ -317,3 +324,42 @@ def replay_c20(ctx, path):
 
 
 CHECKS["C20"] = check_c20
+
+
+# ----------------------------------------------------------------------------- C19 ardsim
+def build_ardsim(ctx):
+    props.build_flavour(ctx, "plain")
+    with props.BuildLock(ctx.B):
+        p = subprocess.run(["make", "-C", os.path.join(ctx.V, "sim"), "FLAVOUR=plain", "REPO=" + ctx.repo, "B=" + ctx.B, "LINKSAN=0", "-j16", "ardsim"], capture_output=True, text=True)
+        if p.returncode != 0:
+            sys.stderr.write(p.stdout[-3000:] + p.stderr[-6000:]); print("HARNESS-ERROR property=C19 (ardsim does not build)"); raise SystemExit(2)
+    return os.path.join(ctx.B, "ard", "ardsim")
+
+
+def check_c19(ctx):
+    exe = build_ardsim(ctx)
+    known, _ = props.load_known(ctx)
+    known_here = [k for k in known if k["property"] == "C19"]
+    runs = 80000 if ctx.tier == "quick" else 5000000
+    out = os.path.join(ctx.B, "out", "C19-%d.json" % os.getpid())
+    os.makedirs(os.path.dirname(out), exist_ok=True)
+    r = _run_json([exe, "--tier", ctx.tier, "--seed", str(ctx.seed), "--runs", str(runs), "--out", out, "--outdir", os.path.join(ctx.B, "out"), "--replaydir", ctx.replay_dir], out, "property=C19")
+    results = [("ard", r)]
+    violations, findings = [], []
+    for v in r["violations"]:
+        v["flavour"] = "ard"
+        hit = [k for k in known_here if k["sig"] == v["sig"]]
+        (findings if hit else violations).append((v, hit[0] if hit else None))
+    extra = {"results_compared_with_the_C_library": r["stats"].get("results_compared", 0),
+             "components": {"real": "arduino/libraries/Skinny/*.cpp (portable C++ path, host g++) and the C library built from the working tree", "simulated": "nothing environmental (the classes allocate nothing and probe nothing): seeded call histories and the reference-model comparison only -- thin fit, see DESIGN.md"}}
+    rule = ("for each of the 11 block-cipher classes and CTR<T> over the five Skinny-128 classes: histories of setKey (right/wrong length), setTweak (value, NULL, wrong length), swapModes, encryptBlock/decryptBlock (in place or not), "
+            "clear, and for CTR setIV/encrypt/decrypt in fragments; the C library object driven by the same history must give the same bytes wherever both are defined; distinct+non-trivial = distinct (class, operation, previous operation, argument class) pairs")
+    return props.finish(ctx, "exploration", rule, results, violations, findings, extra_cov=extra,
+                        assumptions=["the AVR inline-assembly path is out of reach on the host", "CTR<T> is compared with the default 16-byte counter and zero tweak (the Arduino wrapper has no tweak call); after setKey a setIV is required before data"])
+
+
+def replay_c19(ctx, path):
+    return subprocess.run([build_ardsim(ctx), "--replay", path]).returncode
+
+
+CHECKS["C19"] = check_c19
